@@ -45,11 +45,13 @@
 (***************************************************************************)
 EXTENDS Bits, TLC
 
-CONSTANT Mut     \* "None", or the name of a deliberately wrong clause (model mutants, tests only)
-
 HistoryDevs == <<"DevEnumDefaultInPlace", "DevPformatSortsDicts", "DevDefaultsBeforeParameterization">>
 MechanismDevs == <<"DevEnumMarkerUnpack", "DevModuleMajorPasses">>
 AllDevs == {HistoryDevs[i] : i \in 1..Len(HistoryDevs)} \cup {MechanismDevs[i] : i \in 1..Len(MechanismDevs)}
+
+\* deliberately wrong clauses (model mutants, never part of a profile; spec/tests only):
+\*   MutMarkerEveryRun   the EXTENSIBILITY IMPLIED pass appends a marker without looking for one
+\*   MutTagsTwice        the AUTOMATIC TAGS pass numbers again, continuing after the tags already there
 
 XItem == [it |-> "X", ns |-> <<>>, ref |-> ""]
 NoDef == [f |-> "none", s |-> "", l |-> <<>>, n |-> 0, ns |-> <<>>]
@@ -121,20 +123,20 @@ PassCO(M, mi) ==
 (* pass 2: pre_process_extensibility_implied (recursion through members     *)
 (* and groups, not through SEQUENCE OF elements)                            *)
 
-RECURSIVE EINode(_)
-EINode(n) ==
+RECURSIVE EINode(_, _)
+EINode(n, S) ==
   IF ~n.hasItems THEN n
   ELSE LET its == Force([j \in 1..Len(n.items) |->
                     IF n.items[j].it \in {"M", "G"}
-                    THEN [n.items[j] EXCEPT !.ns = Force([k \in 1..Len(n.items[j].ns) |-> EINode(n.items[j].ns[k])])]
+                    THEN [n.items[j] EXCEPT !.ns = Force([k \in 1..Len(n.items[j].ns) |-> EINode(n.items[j].ns[k], S)])]
                     ELSE n.items[j]])
            marked == \E j \in 1..Len(its) : its[j].it = "X"
-       IN [n EXCEPT !.items = IF marked /\ Mut # "MarkerEveryRun" THEN its ELSE Append(its, XItem)]
+       IN [n EXCEPT !.items = IF marked /\ "MutMarkerEveryRun" \notin S THEN its ELSE Append(its, XItem)]
 
-PassEI(M, mi) ==
+PassEI(M, mi, S) ==
   IF ~M[mi].extimp THEN M
   ELSE LET ts == M[mi].types
-       IN SetTypes(M, mi, Force([t \in 1..Len(ts) |-> [ts[t] EXCEPT !.node = EINode(ts[t].node)]]))
+       IN SetTypes(M, mi, Force([t \in 1..Len(ts) |-> [ts[t] EXCEPT !.node = EINode(ts[t].node, S)]]))
 
 ------------------------------------------------------------------------------
 (* pass 3: pre_process_tags                                                 *)
@@ -143,9 +145,9 @@ PassEI(M, mi) ==
 (*   under AUTOMATIC TAGS the members of a SEQUENCE/SET/CHOICE are numbered *)
 (*   0.. only when no member (groups flattened) carries a tag               *)
 
-RECURSIVE TagNode(_, _, _, _, _), TagItems(_, _, _, _, _)
+RECURSIVE TagNode(_, _, _, _, _, _), TagItems(_, _, _, _, _, _)
 
-TagNode(M, n, mt, mi, dummies) ==
+TagNode(M, n, mt, mi, dummies, S) ==
   LET n1 == IF n.tag.has /\ n.tag.kind = ""
             THEN [n EXCEPT !.tag.kind =
                     IF ResolveName(M, n.type, mi) = "CHOICE" THEN "EXPLICIT"
@@ -153,14 +155,14 @@ TagNode(M, n, mt, mi, dummies) ==
                     ELSE IF mt \in {"IMPLICIT", "EXPLICIT"} THEN mt
                     ELSE "IMPLICIT"]
             ELSE n
-      n2 == IF n1.hasItems THEN [n1 EXCEPT !.items = TagItems(M, n1.items, mt, mi, dummies)] ELSE n1
-  IN IF n2.elem # <<>> THEN [n2 EXCEPT !.elem = <<TagNode(M, n2.elem[1], mt, mi, dummies)>>] ELSE n2
+      n2 == IF n1.hasItems THEN [n1 EXCEPT !.items = TagItems(M, n1.items, mt, mi, dummies, S)] ELSE n1
+  IN IF n2.elem # <<>> THEN [n2 EXCEPT !.elem = <<TagNode(M, n2.elem[1], mt, mi, dummies, S)>>] ELSE n2
 
-TagItems(M, items, mt, mi, dummies) ==
+TagItems(M, items, mt, mi, dummies, S) ==
   LET anyTagged == \E j \in 1..Len(items) : \E k \in 1..Len(items[j].ns) : items[j].ns[k].tag.has
-      auto == mt = "AUTOMATIC" /\ (~anyTagged \/ Mut = "TagsTwice")
+      auto == mt = "AUTOMATIC" /\ (~anyTagged \/ "MutTagsTwice" \in S)
       tagged == FoldLeft(LAMBDA acc, i : acc + Len(SelectSeq(items[i].ns, LAMBDA m : m.tag.has)), 0, Idx(Len(items)))
-      base == IF Mut = "TagsTwice" THEN tagged ELSE 0       \* mutant: numbering continues after the tags already there
+      base == IF "MutTagsTwice" \in S THEN tagged ELSE 0       \* mutant: numbering continues after the tags already there
       before == Force([j \in 1..Len(items) |->
                    FoldLeft(LAMBDA acc, i : acc + Len(items[i].ns), 0, Idx(j - 1))])
       one(m, num) ==
@@ -168,16 +170,16 @@ TagItems(M, items, mt, mi, dummies) ==
                                                   kind |-> IF m.tag.has THEN m.tag.kind ELSE "",
                                                   cls |-> IF m.tag.has THEN m.tag.cls ELSE "",
                                                   rest |-> IF m.tag.has THEN m.tag.rest ELSE ""]]
-                   ELSE m, mt, mi, dummies)
+                   ELSE m, mt, mi, dummies, S)
   IN Force([j \in 1..Len(items) |->
        [items[j] EXCEPT !.ns = Force([k \in 1..Len(items[j].ns) |-> one(items[j].ns[k], base + before[j] + k - 1)])]])
 
-PassTAGS(M, mi) ==
+PassTAGS(M, mi, S) ==
   LET ts == M[mi].types
       mt == M[mi].tags
   IN SetTypes(M, mi, Force([t \in 1..Len(ts) |->
        [ts[t] EXCEPT !.node = TagNode(M, ts[t].node, mt, mi,
-                                      IF ts[t].node.hasParams THEN ts[t].node.params ELSE <<>>)]]))
+                                      IF ts[t].node.hasParams THEN ts[t].node.params ELSE <<>>, S)]]))
 
 ------------------------------------------------------------------------------
 (* pass 4: pre_process_default_value                                        *)
@@ -352,12 +354,12 @@ PreProcess(M, ne, S) ==
   LET mods == Idx(Len(M))
       thenDef(acc, mi) == IF acc.err # "" THEN acc ELSE PassDEF(acc.m, mi, ne, S)
       four(acc, mi) == IF acc.err # "" THEN acc
-                       ELSE PassDEF(PassTAGS(PassEI(PassCO(acc.m, mi), mi), mi), mi, ne, S)
+                       ELSE PassDEF(PassTAGS(PassEI(PassCO(acc.m, mi), mi, S), mi, S), mi, ne, S)
       st4 == IF "DevModuleMajorPasses" \in S
              THEN FoldLeft(four, [m |-> M, err |-> ""], mods)
              ELSE LET a == FoldLeft(LAMBDA m, mi : PassCO(m, mi), M, mods)
-                      b == FoldLeft(LAMBDA m, mi : PassEI(m, mi), a, mods)
-                      c == FoldLeft(LAMBDA m, mi : PassTAGS(m, mi), b, mods)
+                      b == FoldLeft(LAMBDA m, mi : PassEI(m, mi, S), a, mods)
+                      c == FoldLeft(LAMBDA m, mi : PassTAGS(m, mi, S), b, mods)
                   IN FoldLeft(thenDef, [m |-> c, err |-> ""], mods)
   IN IF st4.err # "" THEN st4
      ELSE LET p1 == FoldLeft(LAMBDA m, mi : PassP1(m, mi), st4.m, mods)
